@@ -944,9 +944,154 @@ def opGram (cfg : Cfg) (a : Obj α) : Except Err (Obj α) :=
   | _ => .ok (linGram cfg a)
 
 
-/-! ### expressions -/
-
 end ops
+
+/-! ### stacks (`scico/operator/_stack.py`, `scico/linop/_stack.py`)
+
+`VerticalStack`, `DiagonalStack` at the level of built objects: the operands are arbitrary operator
+objects (whatever `build` produced for their expressions).  Arrays are flattened, so a stacked array
+`(N, *S)` and the block array `(S, …, S)` have the same representation — the collapse flags only
+change the declared shapes.  For dispatch the stack classes behave like `LinearOperator` /
+`Operator` (they override no arithmetic), which is the class recorded in `Meta`. -/
+
+section stacks
+variable {α : Type} [Add α] [Sub α] [Mul α] [Div α] [Neg α] [Zero α] [One α] [HasConj α] [HasRe α]
+
+/-- `is_collapsible` (after repo commit 46ad4b6: a nested first shape is not collapsible) -/
+def isCollapsibleS : List Shape → Bool
+  | [] => true
+  | s :: rest => !s.isNested && rest.all (· = s)
+
+def plainDims : Shape → List Nat
+  | .plain d => d
+  | .nested _ => []
+
+/-- `collapse_shapes(shapes, allow_collapse)` → `(shape, collapsed)`; twice-nested: `ValueError` -/
+def collapseS (shapes : List Shape) (allow : Bool) : Except Err (Shape × Bool) :=
+  if isCollapsibleS shapes && allow then
+    match shapes with
+    | .plain d :: _ => .ok (.plain (shapes.length :: d), true)
+    | _ => .error .shape
+  else if shapes.all (fun s => !s.isNested) then .ok (.nested (shapes.map plainDims), false)
+  else .error .shape
+
+/-- block `[off, off+m)` of a flattened (stacked or block) array -/
+@[noinline] def vslice (off m : Nat) (x : Vc α) : Vc α := trunc m (fun i => x.get (off + i))
+
+/-- concatenation of a block of size `m` and a block of size `k` -/
+@[noinline] def vappend (m k : Nat) (u v : Vc α) : Vc α :=
+  trunc (m + k) (fun i => if i < m then u.get i else v.get (i - m))
+
+def sumM : List (Obj α) → Nat
+  | [] => 0
+  | o :: os => o.m + sumM os
+
+def sumN : List (Obj α) → Nat
+  | [] => 0
+  | o :: os => o.n + sumN os
+
+/-- `VerticalStack._eval`: `stack / BlockArray([op(x) for op in ops])` -/
+def vstackEval : List (Obj α) → Vc α → Vc α
+  | [], _ => zeroV
+  | o :: os, x => vappend o.m (sumM os) (o.eval x) (vstackEval os x)
+
+/-- `linop.VerticalStack._adj`: `sum([op.adj(y_block) for y_block, op in zip(y, ops)])`
+    (`off` = offset of the current block in the flattened `y`) -/
+def vstackAdj (n : Nat) : List (Obj α) → Nat → Vc α → Vc α
+  | [], _, _ => trunc n (fun _ => 0)
+  | o :: os, off, y =>
+    vzip n (fun s t => s + t) (o.adj (vslice off o.m y)) (vstackAdj n os (off + o.m) y)
+
+/-- `DiagonalStack._eval`: `tuple(op(x_n) for op, x_n in zip(ops, x))`, stacked or blocked -/
+def dstackEval : List (Obj α) → Nat → Vc α → Vc α
+  | [], _, _ => zeroV
+  | o :: os, off, x =>
+    vappend o.m (sumM os) (o.eval (vslice off o.n x)) (dstackEval os (off + o.n) x)
+
+/-- `linop.DiagonalStack._adj`: `tuple(op.adj(y_n) for op, y_n in zip(ops, y))` -/
+def dstackAdj : List (Obj α) → Nat → Vc α → Vc α
+  | [], _, _ => zeroV
+  | o :: os, off, y =>
+    vappend o.n (sumN os) (o.adj (vslice off o.m y)) (dstackAdj os (off + o.m) y)
+
+/-- dtype of `snp.stack(results)` (promotion) / of `BlockArray(results)` (all equal, else
+    `ValueError: Heterogeneous dtypes not supported`) -/
+def joinDts (stacked : Bool) : List (Except Err DT) → Except Err DT
+  | [] => .error .other
+  | [r] => r
+  | r :: rest => do
+    let d ← r
+    let d' ← joinDts stacked rest
+    if stacked then pure (resultType d d') else if d = d' then pure d else .error .dtype
+
+/-- dtype of `sum([...])` (Python `sum` starts from the weak integer `0`) -/
+def sumDts : List (Except Err DT) → Except Err DT
+  | [] => .error .other
+  | [r] => r
+  | r :: rest => do let d ← r; let d' ← sumDts rest; pure (resultType d d')
+
+/-- `linop.VerticalStack(ops, collapse_output)` (`lin = true`) / `operator.VerticalStack` (`lin = false`);
+    the empty list (Python: `IndexError`) is reported as `other` -/
+def vstack (lin : Bool) (ops : List (Obj α)) (collapse : Bool) : Except Err (Obj α) :=
+  match ops with
+  | [] => .error .other
+  | o0 :: _ =>
+    if lin && ops.any (fun o => o.md.cls = .op) then .error .type
+    else if !(ops.all (fun o => o.md.inShape = o0.md.inShape)) then .error .shape
+    else if !(ops.all (fun o => o.md.inDt = o0.md.inDt)) then .error .dtype
+    else if ops.any (fun o => o.md.outShape.isNested) then .error .shape
+    else if !(ops.all (fun o => o.md.outDt = o0.md.outDt)) then .error .dtype
+    else
+      let outs := ops.map (fun o => o.md.outShape)
+      let collapsed := isCollapsibleS outs && collapse
+      let outSh : Shape :=
+        if collapsed then .plain (ops.length :: plainDims o0.md.outShape)
+        else .nested (outs.map plainDims)
+      let evalDt : DtFn := fun dx => joinDts collapsed (ops.map (fun o => o.evalDt dx))
+      if lin then
+        .ok (mkLin .linop o0.md.inShape outSh o0.md.inDt o0.md.outDt
+          (vstackEval ops) (fun y => vstackAdj o0.n ops 0 y) evalDt
+          (fun dy => sumDts (ops.map (fun o => o.adjCallDt dy))))
+      else .ok (mkOp o0.md.inShape outSh o0.md.inDt o0.md.outDt (vstackEval ops) evalDt)
+
+/-- `linop.DiagonalStack(ops, collapse_input, collapse_output)` / `operator.DiagonalStack` -/
+def dstack (lin : Bool) (ops : List (Obj α)) (collapseIn collapseOut : Bool) : Except Err (Obj α) :=
+  match ops with
+  | [] => .error .other
+  | o0 :: _ =>
+    if lin && ops.any (fun o => o.md.cls = .op) then .error .type
+    else if ops.any (fun o => o.md.outShape.isNested) then .error .shape
+    else if !(ops.all (fun o => o.md.inDt = o0.md.inDt)) then .error .dtype
+    else if !(ops.all (fun o => o.md.outDt = o0.md.outDt)) then .error .dtype
+    else
+      match collapseS (ops.map (fun o => o.md.inShape)) collapseIn with
+      | .error e => .error e
+      | .ok (inSh, cIn) =>
+        match collapseS (ops.map (fun o => o.md.outShape)) collapseOut with
+        | .error e => .error e
+        | .ok (outSh, cOut) =>
+          let evalDt : DtFn := fun dx => joinDts cOut (ops.map (fun o => o.evalDt dx))
+          if lin then
+            .ok (mkLin .linop inSh outSh o0.md.inDt o0.md.outDt
+              (fun x => dstackEval ops 0 x) (fun y => dstackAdj ops 0 y) evalDt
+              (fun dy => joinDts cIn (ops.map (fun o => o.adjCallDt dy))))
+          else .ok (mkOp inSh outSh o0.md.inDt o0.md.outDt (fun x => dstackEval ops 0 x) evalDt)
+
+/-- SPECIFICATION: vertical concatenation of the operands' matrices -/
+def vcatMx : List (Obj α) → List (Mx α) → Mx α
+  | o :: os, D :: Ds => fun i j => if i < o.m then D i j else vcatMx os Ds (i - o.m) j
+  | _, _ => fun _ _ => 0
+
+/-- SPECIFICATION: block-diagonal matrix of the operands' matrices -/
+def bdiagMx : List (Obj α) → List (Mx α) → Mx α
+  | o :: os, D :: Ds => fun i j =>
+    if i < o.m then (if j < o.n then D i j else 0)
+    else (if j < o.n then 0 else bdiagMx os Ds (i - o.m) (j - o.n))
+  | _, _ => fun _ _ => 0
+
+end stacks
+
+/-! ### expressions -/
 
 /-- operator expressions; leaves carry real scico constructor arguments -/
 inductive LExpr (α : Type) where
@@ -1060,6 +1205,22 @@ def runC (cfg : Cfg) (e : LExpr α) : Impl α :=
 def build (e : LExpr α) : Except Err (Obj α) := buildC Cfg.fixed e
 def infer (e : LExpr α) : Except Err Meta := inferC Cfg.fixed e
 def run (e : LExpr α) : Impl α := runC Cfg.fixed e
+
+
+/-- the operands of a stack, built left to right (the first rejection wins) -/
+def buildAll (cfg : Cfg) : List (LExpr α) → Except Err (List (Obj α))
+  | [] => .ok []
+  | e :: es => do let o ← buildC cfg e; let os ← buildAll cfg es; pure (o :: os)
+
+/-- `VerticalStack([e₁, …, e_N], collapse_output)` of expressions -/
+def buildVStack (lin : Bool) (es : List (LExpr α)) (collapse : Bool) : Except Err (Obj α) := do
+  let os ← buildAll Cfg.fixed es
+  vstack lin os collapse
+
+/-- `DiagonalStack([e₁, …, e_N], collapse_input, collapse_output)` of expressions -/
+def buildDStack (lin : Bool) (es : List (LExpr α)) (cIn cOut : Bool) : Except Err (Obj α) := do
+  let os ← buildAll Cfg.fixed es
+  dstack lin os cIn cOut
 
 /-! ### the specification: the same construction on dense matrices -/
 
